@@ -43,6 +43,10 @@ template <class E> static void run_ets() {
     std::multiset<int> tags; for (auto it = ets.begin(); it != ets.end(); ++it) tags.insert(it->tag);
     if ((int)ets.size() != pre + n || (int)tags.size() != pre + n) vf_fail("size() %zu / iteration %zu elements for %d threads", ets.size(), tags.size(), pre + n);
     for (int i = 0; i < pre + n; i++) if (tags.count(100 + i) != 1) vf_fail("iteration visits the element of thread %d %zu times", i, tags.count(100 + i));
+    // backward traversal with a dereference before every decrement, const and non-const iterators, and iterator arithmetic: each element once
+    { std::multiset<int> back; auto it = ets.end(); int steps = 0; while (it != ets.begin()) { if (steps) (void)it->tag; --it; back.insert(it->tag); if (++steps > pre + n + 1) vf_fail("backward iteration does not terminate"); } if (back != tags) vf_fail("backward iteration (dereference, decrement, dereference) visited %zu elements, %zu distinct - forward iteration visited %zu", back.size(), std::set<int>(back.begin(), back.end()).size(), tags.size());
+      const E& ce = ets; std::multiset<int> cback; auto cit = ce.end(); while (cit != ce.begin()) { auto prev = cit; --prev; (void)prev->tag; cit--; cback.insert((*cit).tag); } if (cback != tags) vf_fail("backward const iteration visited other elements than forward iteration");
+      std::multiset<int> idx; for (size_t i = 0; i < ets.size(); i++) { auto j = ets.begin(); (void)(*j).tag; j += (std::ptrdiff_t)i; idx.insert(j->tag); auto k2 = ets.end() - (std::ptrdiff_t)(ets.size() - i); if (k2->tag != j->tag) vf_fail("iterator arithmetic: begin()+%zu and end()-%zu differ", i, ets.size() - i); } if (idx != tags) vf_fail("indexed iteration visited other elements than forward iteration"); }
     int sum = 0, cnt = 0; ets.combine_each([&](const Cell& c) { sum += c.tag; cnt++; }); if (cnt != pre + n) vf_fail("combine_each visited %d elements", cnt);
     vf_outcome("ok inits=%d", inits);
 }
